@@ -65,7 +65,7 @@ def run(ctx):
             t = rf.get(name, ('unk',))
             ok = nths(t) == [ordn] and 'from_utf8' in calls_in(t) and 'expect_primitive' in calls_in(t)
             ctx.add('T1.' + name, 'child %d' % ordn, loc(B.root), ok, '%s is not the UTF-8 content of child %d: %s' % (name, ordn, absx.fmt(t)[:120]))
-        ctx.add('T1.ctrls-empty', 'ctrls', loc(B.root), rf.get('ctrls', ('unk',))[0] == 'call' and rf['ctrls'][1].endswith('Vec::<T>::new'),
+        ctx.add('T1.ctrls-empty', 'ctrls', loc(B.root), rf.get('ctrls') == ('vec', ()),
                 'LdapResultExt::from must leave ctrls empty (the envelope controls are added by op_call)')
     ctx.floor('T1', 'success paths of the LDAPResult decoder', n_struct, 1)
     # dispatch table: structural, from the match on `.id` in the component loop
